@@ -341,7 +341,7 @@ theorem h2_ws_iff_connect (sid : Nat) (hs : Headers) :
     (HC.Proto.H2Deliver.reqOf sid hs).isConnect = (Bytes.upper ((HC.Proto.H2Deliver.lastVal hs ":method".b).getD []) == Select.h2WsMethod) := by
   simp [HC.Proto.H2Deliver.reqOf, Select.h2WsMethod]
 
-/-! ## The h2c upgrade and its HTTP2-Settings payload (F43, repaired in 2e1c011) -/
+/-! ## The h2c upgrade and its HTTP2-Settings payload (F43, repaired in 38e2214) -/
 
 /-- **an h2c upgrade is served as stream 1 iff h2 accepts the HTTP2-Settings payload**; otherwise the connection is ended
     right after the 101 (GOAWAY, `Closed`) and no stream exists.  In both cases the 101 has been written and `initiate` was
